@@ -88,7 +88,13 @@ impl Prop for C09 {
     }
     fn strategy(&self, _tier: Tier) -> BoxedStrategy<Case> {
         (gen::recv_input(), gen::ctx_cfg(), prop_oneof![2 => Just(Vec::new()).boxed(), 1 => gen::prior_history(4)])
-            .prop_map(|(bytes, cfg, hist)| Case { bytes, cfg, hist })
+            .prop_map(|(bytes, cfg, mut hist)| {
+                // receive flow: the length probe is called on the same bytes first
+                if bytes.len() % 4 == 1 {
+                    hist.push(Op::GetLength { bytes: bytes.clone() });
+                }
+                Case { bytes, cfg, hist }
+            })
             .boxed()
     }
     fn budget(&self, tier: Tier) -> u64 {
